@@ -251,6 +251,16 @@ TWEAK = {"weibull": ("alpha", 1.35), "lognormal": ("sigma", 1.5), "expweibull": 
 def gen_history_case(rng, max_cells, what):
     """a contour, then the SAME model object gets other parameters (attribute assignment / a second fit), then a contour on
     the same explicit grid: the second contour must be the contour of the CURRENT model"""
+    if what == "insufficient":
+        # several contours in a row on ONE explicit grid that cannot capture 1 - alpha (same model with other alphas, and
+        # another model): every one of them must raise the RuntimeWarning
+        desc = M.gen_model_desc(rng, rng.choice([2, 2, 3]))
+        c = gen_grid_case(rng, max_cells, desc=desc)
+        c["alpha"] = float(10 ** rng.uniform(-7, -4))
+        c["limits"] = [[l[0], l[0] + 0.45 * (l[1] - l[0])] if l[1] > l[0] else [l[1] + 0.45 * (l[0] - l[1]), l[1]] for l in c["limits"]]
+        c["prior"] = {"type": "insufficient", "alphas": [float(10 ** rng.uniform(-7, -4)) for _ in range(rng.choice([1, 2]))],
+                      "other": M.gen_model_desc(rng, len(desc["dims"])) if rng.random() < 0.5 else None}
+        return c
     if what == "refit":
         name = rng.choice(["get_DNVGL_Hs_Tz", "get_OMAE2020_Hs_Tz"])
         first, second = rng.sample(["ec-benchmark_dataset_A_1year.txt", "ec-benchmark_dataset_B_1year.txt", "ec-benchmark_dataset_C_1year.txt"], 2)
@@ -276,7 +286,19 @@ def build_with_history(c):
     lim, dl = M.apply_forms(c["limits"], c["deltas"], c.get("lim_form", "tuples"), c.get("dl_form", "asis"))
     with warnings.catch_warnings():
         warnings.simplefilter("ignore")
-        if pr["type"] == "refit":
+        if pr["type"] == "insufficient":
+            model = M.build_model(c["desc"])
+            for a in pr["alphas"]:
+                try:
+                    vc.HighestDensityContour(model, a, lim, dl)
+                except Exception:  # noqa
+                    pass
+            if pr.get("other"):
+                try:
+                    vc.HighestDensityContour(M.build_model(pr["other"]), c["alpha"], lim, dl)
+                except Exception:  # noqa
+                    pass
+        elif pr["type"] == "refit":
             model = M.fit_predefined_fresh(pr["name"], pr["first"])
             try:
                 vc.HighestDensityContour(model, c["alpha"], lim, dl)
@@ -623,7 +645,7 @@ def run(ctx):
         c = gen_int_grid_case(rng, max_cells)
         cases_b.append(c)
         outs_b.append(run_grid(c))
-    for what in ["params", "params", "refit"] * ctx.n(1, 5):
+    for what in ["params", "params", "refit", "insufficient", "insufficient", "insufficient"] * ctx.n(1, 5):
         c = gen_history_case(rng, max_cells, what)
         cases_b.append(c)
         outs_b.append(run_grid(c))
